@@ -19,7 +19,7 @@ OutClsFile == {"file"}
 OutClsAll == {"file_direct", "file_buf", "file_async", "stdout_direct", "stdout_buf", "stdout_async", "stderr_direct",
               "stderr_buf", "stderr_async", "both_direct", "both_buf", "both_async", "pw_direct", "buffer_direct"}
 OpClsStd == {"log_plain", "log_recursive", "log_recursive_brace", "log_recursive_to_writer", "log_brace_default",
-             "log_brace_open", "adapt_dup"}
+             "log_brace_open", "adapt_dup", "log_recursive_respec"}
 View == <<dirc, naming, fmtc, append, outc, ops, hist>>
 Emit == (GenHist /\ ops = MaxOps) =>
           PrintT(<<"REPLAY", ToJson([cfg |-> [dirc |-> dirc, naming |-> naming, fmtc |-> fmtc, append |-> append, outc |-> outc], steps |-> hist])>>)
